@@ -21,7 +21,7 @@ func init() {
 
 func ruleC04(c *Ctx, r *Report) {
 	const rule = "MP-C04"
-	r.floor(rule, 16)
+	r.floor(rule, 22)
 	inQuery := c.Func(planRel, "postHandleGlobalTableRouteResultInQuery")
 	inModify := c.Func(planRel, "postHandleGlobalTableRouteResultInModify")
 	genGlobal := c.Func(planRel, "generateGlobalShardingSQLs")
@@ -239,6 +239,117 @@ func ruleC04(c *Ctx, r *Report) {
 			} else {
 				r.ok(rule, c.FuncName(s.Fn), "route:one-copy-caller", c.Pos(s.In.Pos()), "the one-copy handler is called by a read builder")
 			}
+		}
+	}
+
+	// ---- (route) every success return of a builder passes its global-table handler
+	for _, h := range []*ssa.Function{inModify, inQuery} {
+		for _, s := range c.callSites(func(cc *ssa.CallCommon) bool { return callsFunc(cc, h) }) {
+			if c.IsMockFunc(s.Fn) || len(s.Fn.Blocks) == 0 {
+				continue
+			}
+			bad := searchExits(s.Fn, nil, s.Fn.Blocks[0], SearchOpts{
+				Stop: func(in ssa.Instruction) bool { return callsFunc(callCommon(in), h) },
+				ExitOK: func(in ssa.Instruction) bool {
+					ret, ok := in.(*ssa.Return)
+					if !ok {
+						return true
+					}
+					isNil, known := returnsNilError(ret)
+					return known && !isNil
+				},
+			})
+			name := c.FuncName(s.Fn)
+			if len(bad) == 0 {
+				r.ok(rule, name, "route:success-passes-handler", c.Pos(s.In.Pos()), "every success return of the builder has passed "+h.Name())
+			} else {
+				r.viol(rule, name, "route:success-passes-handler", c.Pos(bad[0].Instr.Pos()), "the builder can return success without "+h.Name()+": a statement over global tables only keeps an empty route and is executed on no copy (or skips the one-copy choice)", c.pathStrings(bad[0])...)
+			}
+		}
+	}
+
+	// ---- (db) decorators are created for global rules too: no decorator constructor is called only for non-global rules
+	{
+		isDecoratorCtor := func(f *ssa.Function) bool {
+			if f == nil || f.Pkg == nil || !strings.HasSuffix(f.Pkg.Pkg.Path(), planRel) || f.Signature.Recv() != nil || f.Signature.Results().Len() == 0 {
+				return false
+			}
+			t := f.Signature.Results().At(0).Type()
+			if pt, ok := t.Underlying().(*types.Pointer); ok {
+				if n := namedOf(pt.Elem()); n != nil {
+					nm := n.Obj().Name()
+					return nm == "ColumnNameDecorator" || nm == "ColumnNameExprDecorator" || nm == "TableNameDecorator"
+				}
+			}
+			return false
+		}
+		n := 0
+		for _, fn := range c.Funcs {
+			if fn.Pkg == nil || !strings.HasSuffix(fn.Pkg.Pkg.Path(), planRel) || c.IsMockFunc(fn) {
+				continue
+			}
+			var ctorCalls []ssa.Instruction
+			allInstrs(fn, func(in ssa.Instruction) {
+				if cc := callCommon(in); cc != nil && isDecoratorCtor(staticCallee(cc)) {
+					ctorCalls = append(ctorCalls, in)
+				}
+			})
+			if len(ctorCalls) == 0 {
+				continue
+			}
+			// edges on which the rule is known NOT to be global
+			var nonGlobal []CondEdge
+			allInstrs(fn, func(in ssa.Instruction) {
+				b, ok := in.(*ssa.BinOp)
+				if !ok || (b.Op != token.EQL && b.Op != token.NEQ) {
+					return
+				}
+				var other ssa.Value
+				if isGlobalConst(b.X) {
+					other = b.Y
+				} else if isGlobalConst(b.Y) {
+					other = b.X
+				} else {
+					return
+				}
+				call, ok := stripValue(resolveLoad(stripValue(other))).(*ssa.Call)
+				if !ok || !callsIfaceMethod(&call.Call, mType) {
+					return
+				}
+				for _, e := range condEdges(b) {
+					if e.Val == (b.Op == token.NEQ) {
+						nonGlobal = append(nonGlobal, e)
+					}
+				}
+			})
+			for i, in := range ctorCalls {
+				n++
+				cons := fmt.Sprintf("db:decorator-for-global:%s@%d", staticCallee(callCommon(in)).Name(), i+1)
+				// named exception (one symbol, reason checked below): the visitor of table-position subqueries. A statement
+				// with such a subquery is refused unless it also names a sharded table (RecordSubqueryTableAlias fails on
+				// len(tableRules)==0), so a statement over global tables only never has its columns rewritten by it.
+				if fn.Signature.Recv() != nil && namedOf(fn.Signature.Recv().Type()) != nil &&
+					namedOf(fn.Signature.Recv().Type()).Obj().Name() == "SubqueryColumnNameRewriteVisitor" && fn.Name() == "Leave" {
+					if subqueryNeedsShardedTable(c) {
+						r.info(rule, c.FuncName(fn), cons, c.Pos(in.Pos()), "exempt: table-position subqueries are refused for statements without a sharded table (RecordSubqueryTableAlias: len(tableRules)==0 -> error), which the rule re-checks")
+						continue
+					}
+				}
+				skipped := false
+				for _, e := range nonGlobal {
+					if instrDominatedByEdge(in, e) {
+						skipped = true
+					}
+				}
+				if skipped {
+					r.viol(rule, c.FuncName(fn), cons, c.Pos(in.Pos()), "the name decorator is created only when the rule is not a global-table rule: names of global tables keep the logical database although the copy lives in another physical database")
+				} else {
+					r.ok(rule, c.FuncName(fn), cons, c.Pos(in.Pos()), "the decorator is created whatever the rule type")
+				}
+			}
+		}
+		if n < 3 {
+			r.undecided(rule, planRel, "db:decorator-sites", "-", fmt.Sprintf("expected the decorator constructor call sites, found %d", n))
 		}
 	}
 
@@ -530,4 +641,67 @@ func ruleC04(c *Ctx, r *Report) {
 			r.viol(rule, name, "db:global-schema-rewritten", c.Pos(fn.Pos()), "for a global rule the schema name is not rewritten to the physical database of the current copy")
 		}
 	}
+}
+
+// subqueryNeedsShardedTable re-checks the reason of the one exception of db:decorator-for-global: in
+// (*TableAliasStmtInfo).RecordSubqueryTableAlias the edge len(t.tableRules)==0 reaches only non-nil-error returns, and
+// every non-recursive caller of handleSubquerySelectStmt also calls RecordSubqueryTableAlias after it.
+func subqueryNeedsShardedTable(c *Ctx) bool {
+	rec := c.Method(planRel, "TableAliasStmtInfo", "RecordSubqueryTableAlias")
+	hs := c.Func(planRel, "handleSubquerySelectStmt")
+	fRules := c.Field(planRel, "StmtInfo", "tableRules")
+	if rec == nil || hs == nil || fRules == nil {
+		return false
+	}
+	guard := false
+	allInstrs(rec, func(in ssa.Instruction) {
+		b, ok := in.(*ssa.BinOp)
+		if !ok || b.Op != token.EQL {
+			return
+		}
+		if k, ok := constInt(b.Y); !ok || k != 0 {
+			return
+		}
+		l, ok := stripValue(b.X).(*ssa.Call)
+		if !ok {
+			return
+		}
+		if bi, ok := l.Call.Value.(*ssa.Builtin); !ok || bi.Name() != "len" || loadedField(l.Call.Args[0]) != fRules {
+			return
+		}
+		for _, e := range condEdges(b) {
+			if !e.Val {
+				continue
+			}
+			bad := searchExits(rec, nil, e.If.Block().Succs[e.Succ], SearchOpts{ExitOK: func(in ssa.Instruction) bool {
+				ret, ok := in.(*ssa.Return)
+				if !ok {
+					return true
+				}
+				isNil, known := returnsNilError(ret)
+				return known && !isNil
+			}})
+			if len(bad) == 0 {
+				guard = true
+			}
+		}
+	})
+	if !guard {
+		return false
+	}
+	for _, s := range c.callSites(func(cc *ssa.CallCommon) bool { return callsFunc(cc, hs) }) {
+		if s.Fn == hs || c.IsMockFunc(s.Fn) {
+			continue
+		}
+		follows := false
+		for _, ci := range callsIn(s.Fn, func(cc *ssa.CallCommon) bool { return callsFunc(cc, rec) }) {
+			if ci.Block() == s.In.Block() || blockReachable(s.In.Block(), ci.Block()) {
+				follows = true
+			}
+		}
+		if !follows {
+			return false
+		}
+	}
+	return true
 }
